@@ -608,8 +608,15 @@ func (n *node) checkCardinality() error {
 			return fmt.Errorf("%s: missing required 'deviate' statement", ErrCard)
 		}
 	}
+	// Where the extension statements this package knows by name (configd:*,
+	// opd:*) may stand is what the extension cardinality says; without one
+	// they are extension statements like any other, accepted anywhere.
+	extAnywhere := n.tree != nil && n.tree.noExtCard
 	//Ensure only valid nodes
 	for k, _ := range cmap {
+		if extAnywhere && strings.Contains(k.String(), ":") {
+			continue
+		}
 		if _, ok := n.card[k]; k != NodeUnknown && k != NodeDataDef && !ok {
 			return fmt.Errorf("%s: invalid substatement '%s'", ErrCard, NodeType(k))
 		}
